@@ -121,6 +121,10 @@ def gen_cases(thorough):
                 # the only argument may be written `name = expr` and still be referred to by position
                 add(derive, cont, lit_rs("{%s}" % sp) + ", a = " + last, "pass", "f%d" % (c.n - 1), ptrait, "bare, implicit index, one named argument")
                 add(derive, cont, lit_rs("{0%s}" % sp) + ", a = " + f0, "pass", "f0", ptrait, "bare, index 0, one named argument")
+                # a trailing comma (after the literal, after the only argument) changes nothing
+                add(derive, cont, lit_rs("{%s%s}" % (llast, sp)) + ",", "pass", "*f%d" % (c.n - 1), ptrait, "bare, field by name, trailing comma after the literal")
+                add(derive, cont, lit_rs("{0%s}" % sp) + ", " + f0 + ",", "pass", "f0", ptrait, "bare, index 0, trailing comma after the argument")
+                add(derive, cont, lit_rs("{a%s}" % sp) + ", a = " + last + ",", "pass", "f%d" % (c.n - 1), ptrait, "bare, matching alias, trailing comma")
                 # std::fmt allows whitespace after the argument and before the closing brace: still one bare placeholder
                 add(derive, cont, lit_rs("{%s %s}" % (llast, sp)), "pass", "*f%d" % (c.n - 1), ptrait, "bare, field by name, whitespace after the argument")
                 add(derive, cont, lit_rs("{0 %s}" % sp) + ", " + f0, "pass", "f0", ptrait, "bare, index 0, whitespace after the argument")
